@@ -28,7 +28,9 @@ RULE = (
 ASSUMPTIONS = ["unix-domain sockets in one process keep the virtual clocks deterministic"]
 
 PHASES = ["fresh", "idle", "mid_head", "short", "long", "stuck", "h2_short", "h2_long", "ws",
-          "h2_two", "pipelined", "unread"]
+          "h2_two", "pipelined", "unread",
+          # the request in progress is the one that upgraded the connection to HTTP/2 (h2c)
+          "h2c_short"]
 
 
 @st.composite
@@ -108,6 +110,10 @@ async def scenario(env: Any, case: Dict[str, Any]) -> Dict[str, Any]:
             c.send(req("/" + phase))
         elif phase == "unread":
             c.send(req("/huge"))
+        elif phase == "h2c_short":
+            c.send(b"GET /short HTTP/1.1\r\nHost: x\r\nConnection: Upgrade, HTTP2-Settings\r\n"
+                   b"Upgrade: h2c\r\nHTTP2-Settings: AAMAAABkAAQAAP__\r\n\r\n"
+                   b"PRI * HTTP/2.0\r\n\r\nSM\r\n\r\n\x00\x00\x00\x04\x00\x00\x00\x00\x00")
         elif phase == "pipelined":  # a second request already waits behind the one in progress
             c.send(req("/short") + req("/quick"))
         elif phase == "h2_two":
@@ -178,7 +184,7 @@ class _Adapter:
 def n_requests_before_trigger(case: Dict[str, Any]) -> int:
     return sum(2 if p == "h2_two" else 1 for p in case["conns"]
                if p in ("idle", "short", "long", "stuck", "h2_short", "h2_long", "ws", "h2_two",
-                        "pipelined", "unread"))
+                        "pipelined", "unread", "h2c_short"))
 
 
 def judge(case: Dict[str, Any], res: Any) -> None:
@@ -256,7 +262,14 @@ def judge(case: Dict[str, Any], res: Any) -> None:
                     raise Violation("cancelled_request_looks_complete", f"{resps[0].to_json()}",
                                     **ptag)
         else:  # h2
-            acct = FrameAccounting().decode(c.received())
+            rx = c.received()
+            if phase == "h2c_short":
+                end = rx.find(b"\r\n\r\n")
+                if not rx.startswith(b"HTTP/1.1 101") or end < 0:
+                    raise Violation("h2c_upgrade_failed", repr(rx[:80]), **ptag)
+                rx = rx[end + 4:]
+                info["sid"] = 1
+            acct = FrameAccounting().decode(rx)
             if acct.error:
                 raise Violation("malformed_frames", acct.error, **ptag)
             s = acct.streams.get(info.get("sid"))
@@ -268,7 +281,7 @@ def judge(case: Dict[str, Any], res: Any) -> None:
                                         f"of two on one connection: "
                                         f"{s2 and (bytes(s2.data), s2.end_stream, s2.rst)}; "
                                         f"goaway={acct.goaway}", **ptag)
-            if phase == "h2_short":
+            if phase in ("h2_short", "h2c_short"):
                 if s is None or bytes(s.data) != b"ok" or s.end_stream != 1:
                     raise Violation("request_in_grace_period_not_delivered", f"stream "
                                     f"{info.get('sid')}: {s and (bytes(s.data), s.end_stream)}",
@@ -280,7 +293,7 @@ def judge(case: Dict[str, Any], res: Any) -> None:
                                 **ptag)
             if c.eof_at is None or c.eof_at > t0 + g + eps:
                 raise Violation("not_closed_by_deadline", f"closed at {c.eof_at}", **ptag)
-            if phase in ("h2_short", "h2_two") and acct.goaway is None:
+            if phase in ("h2_short", "h2_two", "h2c_short") and acct.goaway is None:
                 raise Violation("no_goaway", "connection with a finished stream closed without "
                                 "telling the peer to go away", **ptag)
 
